@@ -345,7 +345,8 @@ class SimCluster(object):
             if broker.api_versions == "none-close":
                 self.sim.after(0.01, conn.close)
             else:
-                st["muted_forever"] = True
+                # the request is swallowed; the connection keeps serving what follows
+                self._done(broker, st)
             return
         try:
             hdr, body = kwire.parse_request(frame)
